@@ -531,12 +531,15 @@ def corpus_cases():
     if os.path.isdir(d):
         for f in sorted(os.listdir(d)):
             if f.endswith(".json"):
-                out.append((f, unjson(json.load(open(os.path.join(d, f)))["case"])))
+                j = json.load(open(os.path.join(d, f)))
+                out.append((f, unjson(j["case"]), j.get("expect", "agree")))
     return out
 
 
 PLAN = [  # family, quick, thorough
-    ("f1_one_sided", 300, 10000), ("f1_two_sided", 300, 10000),
+    ("f1_one_sided", 150, 8000), ("f1_two_sided", 150, 8000),
+    ("f2_one_sided", 100, 6000), ("f2_two_sided", 100, 6000),
+    ("f3_one_sided", 100, 6000), ("f3_two_sided", 100, 6000),
 ]
 
 
@@ -547,15 +550,27 @@ def algo_stream(ctx, streams, plan=None, label="algo"):
     samples = []
     t0 = time.time()
     n_corpus = 0
-    for name, case in corpus_cases():
+    n_findings = 0
+    for name, case, expect in corpus_cases():
         r = run_case(case, model)
         n_corpus += 1
         tot_states += r.states
-        if r.diff or r.stuck or r.loop_errors:
+        if r.diff or r.stuck or r.loop_errors or r.in_frag is None:
             ctx.violation("ALGO corpus case %s: model and engine differ: %r" % (name, r.diff or "stuck / loop error"),
                           dict(kind="algo-tie", corpus=name, case=jsonable(case), first_difference=list(r.diff or [])),
                           no_input=True, theorem="stepwise correspondence AlgoModel.algo_step vs the real engine")
-    streams[label + "_corpus"] = dict(cases=n_corpus, wall_s=round(time.time() - t0, 1))
+        elif expect == "engine_diverges":
+            # model and engine agree step by step, and BOTH end quiescent with different trees: a finding about the engine
+            if r.final_equal is False:
+                n_findings += 1
+                ctx.violation("real engine quiescent with different trees on both sides (%s); AlgoModel reproduces every step" % name,
+                              dict(kind="algo-finding", corpus=name, case=jsonable(case)))
+            else:
+                ctx.notes.append("corpus witness %s no longer diverges on this tree" % name)
+        elif r.final_equal is False:
+            ctx.violation("ALGO corpus case %s: real engine quiescent with different trees" % name,
+                          dict(kind="algo-unequal", corpus=name, case=jsonable(case)))
+    streams[label + "_corpus"] = dict(cases=n_corpus, engine_findings_reproduced=n_findings, wall_s=round(time.time() - t0, 1))
     for fam, nq, nt in (plan or PLAN):
         n = nq if ctx.quick else nt
         t1 = time.time()
